@@ -30,3 +30,13 @@ var $bad_check = (i, n) => {
 var $ok_shr = (x) => { return x >>> 0; };
 var $bad_shr = (x) => { return x >>> 0; };
 var $ok_div = (x, y) => { return Math.floor(x / y); };
+var $ok_setlen = (s) => { s.$length = 0; return s; };
+var $bad_setlen = (s) => { s.$length = 0; return s; };
+var $ok_flag = (f) => { if (!f.typ.comparable) { typ.comparable = false; } };
+var $bad_flag = (f) => { if (f.name !== "_" && !f.typ.comparable) { typ.comparable = false; } };
+var $ok_reccopy = (dst, src) => {
+    for (var i = 0; i < fields.length; i++) { var f = fields[i]; dst[f.prop] = src[f.prop]; }
+};
+var $bad_reccopy = (dst, src) => {
+    for (var i = 1; i < fields.length; i++) { var f = fields[i]; dst[f.prop] = src[f.prop]; }
+};
